@@ -36,6 +36,9 @@ def close(V, i, j):
     return MATH_FUNS["sqrt"](tot) < V.p.symprec
 
 
+CLOSE = z3.Function("cp_close", I, I, z3.BoolSort())        # CLOSE(i, j) := close(i, j), kept opaque outside the assignment site
+
+
 def compute_permutation_contract(run_sink):
     SH = {"rot_atom": lambda P: [P.num_pos], "lat": lambda P: [3, 3], "pos": lambda P: [P.num_pos, 3], "rot_pos": lambda P: [P.num_pos, 3]}
     pref = F + ":phpy_compute_permutation"
@@ -69,7 +72,9 @@ def compute_permutation_contract(run_sink):
         l3q = z3.ForAll([A, s0], z3.Implies(z3.And(s0 >= 0, z3.ForAll([b_], z3.Implies(z3.And(b_ >= 0, b_ < s0), z3.Select(A, b_) < 0))), cnt_of(A)(s0) == 0))
         mono = step_monotone_lemma(run_sink, pref, cA)
         monoq = [z3.ForAll([A], f_) for f_ in mono]
-        return [l1q, l2q, l3q] + monoq
+        i0 = z3.Int("cp!i")
+        cdef = z3.ForAll([i0, j0], CLOSE(i0, j0) == close(V, i0, j0), patterns=[CLOSE(i0, j0)])      # explicit definition (conservative)
+        return [l1q, l2q, l3q, cdef] + monoq
 
     def rot(V):
         return V.a.rot_atom
@@ -82,7 +87,7 @@ def compute_permutation_contract(run_sink):
         n = V.p.num_pos
         r = rot(V)
         return [("values", z3.ForAll([b_], z3.Implies(z3.And(b_ >= 0, b_ < n), z3.And(r[b_] >= -1, r[b_] < i)))),
-                ("match", z3.ForAll([b_], z3.Implies(z3.And(b_ >= 0, b_ < n, r[b_] >= 0), close(V, r[b_], b_)))),
+                ("match", z3.ForAll([b_], z3.Implies(z3.And(b_ >= 0, b_ < n, r[b_] >= 0), CLOSE(r[b_], b_)))),
                 ("injective", z3.ForAll([b_, c_], z3.Implies(z3.And(b_ >= 0, b_ < n, c_ >= 0, c_ < n, b_ != c_, r[b_] >= 0, r[c_] >= 0), r[b_] != r[c_]))),
                 ("count", cnt_of(arr_of(V))(n) <= i)]
 
